@@ -59,7 +59,7 @@ func (w *vFailWriter) Write(p []byte) (int, error) {
 // VerifC05RoundTrip: serialize a symbolic bitmap, read it back through one entry point, compare.
 //
 //	params: wr (0 ToBytes, 1 WriteTo(bytes.Buffer), 2 MarshalBinary), rd (0 FromBuffer, 1 FromUnsafeBytes, 2 ReadFrom(bytes.Reader),
-//	        3 UnmarshalBinary, 4 ReadFrom(chunked reader)), chunk (bytes per Read), reuse (1: receiver already holds another bitmap), tail (trailing bytes), a*
+//	        3 UnmarshalBinary, 4 ReadFrom(chunked reader)), chunk (bytes per Read), reuse (1: receiver already holds another bitmap, 2: receiver grown by two single Adds, 3: receiver used and cleared), tail (trailing bytes), a*
 func VerifC05RoundTrip() {
 	a, da := vGenBitmap("a")
 	snap := vBSnapshot(a)
@@ -93,11 +93,20 @@ func VerifC05RoundTrip() {
 	}
 	keep := append([]byte(nil), stream...)
 	b := NewBitmap()
-	if vsym.Param("reuse") == 1 {
+	switch vsym.Param("reuse") {
+	case 1:
 		b.AddRange(5, 70000)
 		b.Add(1 << 20)
 		b.Add(1 << 21)
 		b.Add(1 << 22)
+	case 2:
+		// a receiver grown by single Adds: its three parallel slices have different capacities
+		b.Add(7)
+		b.Add(1 << 20)
+	case 3:
+		// ... and cleared again
+		b.Add(7)
+		b.Clear()
 	}
 	var nr int64 = -1
 	switch vsym.Param("rd") {
